@@ -100,6 +100,9 @@ class PersistentMixin(Module):
                 self.persistentData = json.load(f)
         except (FileNotFoundError, ValueError):
             self.persistentData = {}
+        if not isinstance(self.persistentData, dict):
+            # the file contains valid JSON, but not an object
+            self.persistentData = {}
         result = {}
         for pname, value in self.persistentData.items():
             try:
